@@ -8,6 +8,7 @@ import (
 	"verifharness/model"
 	"verifharness/mon"
 	"verifharness/runner"
+	"verifharness/val"
 )
 
 // C18 – table lifecycle and metadata stay coherent.
@@ -76,7 +77,98 @@ func c18Seeded(tier string) int {
 }
 
 func (p *c18) NumCases(tier string) int {
-	return (c18ExhCount(tier)+c18Block-1)/c18Block*2 + c18Seeded(tier)
+	return (c18ExhCount(tier)+c18Block-1)/c18Block*2 + c18Seeded(tier) + len(c18BulkSizes)*len(c18BulkActions)*2
+}
+
+// bulk lifecycle: the lifecycle operations applied to a table that holds MANY items (sizes on both sides of
+// 16 / 32 / 64 / 100 / 128 / 256), filled through BatchWriteItem calls of 25 and single puts, with three
+// secondary indexes; after the operation everything is observed, the table is refilled and observed again
+var c18BulkSizes = []int{17, 33, 65, 101, 129, 257}
+var c18BulkActions = []string{"clear", "clear-twice", "delete-recreate", "drop-index", "create-index", "replace-index", "delete-half-singly", "clear-other-table", "rejected-updatetable"}
+
+func (p *c18) bulk(x *res, adapter string, n int, action string, ctx *runner.Ctx) {
+	spec := ixSpec("tba", true)
+	other := ixSpec("tbb", true)
+	cl, m, ds := freshClient(adapter, spec, other)
+	if ds != nil {
+		x.viol("setup", "create", ds[0].Detail, spec)
+		return
+	}
+	keys := mon.KeyLog{}
+	st := &mon.HistoryStats{}
+	fill := func(table string, from, to int) []adapt.Op {
+		ops := []adapt.Op{}
+		batch := []adapt.BatchEntry{}
+		for i := from; i < to; i++ {
+			it := ixItem(fmt.Sprint("p", i%3), fmt.Sprintf("r%04d", i), []string{"x", "y", ""}[i%3], []string{"1", "10", "", "9"}[i%4], i)
+			if i%7 == 0 {
+				ops = append(ops, adapt.Op{Kind: adapt.OpPut, Table: table, Item: it})
+				continue
+			}
+			batch = append(batch, adapt.BatchEntry{Table: table, Put: it})
+			if len(batch) == 25 {
+				ops = append(ops, adapt.Op{Kind: adapt.OpBatchWrite, Batch: batch})
+				batch = nil
+			}
+		}
+		if len(batch) > 0 {
+			ops = append(ops, adapt.Op{Kind: adapt.OpBatchWrite, Batch: batch})
+		}
+		return ops
+	}
+	hist := append(fill(spec.Name, 0, n), fill(other.Name, 0, n)...)
+	var act []adapt.Op
+	gsi2 := adapt.IndexSpec{Name: "gsi2", Hash: "g", Range: "s"}
+	switch action {
+	case "clear":
+		act = []adapt.Op{{Kind: adapt.OpClearTable, Table: spec.Name}}
+	case "clear-twice":
+		act = []adapt.Op{{Kind: adapt.OpClearTable, Table: spec.Name}, {Kind: adapt.OpClearTable, Table: spec.Name}}
+	case "delete-recreate":
+		act = []adapt.Op{{Kind: adapt.OpDeleteTable, Table: spec.Name}, createOp(spec)}
+	case "drop-index":
+		act = []adapt.Op{{Kind: adapt.OpUpdateTable, Table: spec.Name, Chg: []adapt.IndexChange{{Delete: "gsi2"}}}}
+	case "create-index":
+		act = []adapt.Op{{Kind: adapt.OpUpdateTable, Table: spec.Name, Chg: []adapt.IndexChange{{Create: &adapt.IndexSpec{Name: "gsi9", Hash: "s", Range: "g"}}}}}
+	case "replace-index":
+		act = []adapt.Op{{Kind: adapt.OpUpdateTable, Table: spec.Name, Chg: []adapt.IndexChange{{Delete: "gsi2"}}}, {Kind: adapt.OpUpdateTable, Table: spec.Name, Chg: []adapt.IndexChange{{Create: &gsi2}}}}
+	case "delete-half-singly":
+		for i := 0; i < n; i += 2 {
+			act = append(act, adapt.Op{Kind: adapt.OpDelete, Table: spec.Name, Key: val.Item{"h": val.Str(fmt.Sprint("p", i%3)), "r": val.Str(fmt.Sprintf("r%04d", i))}})
+		}
+	case "clear-other-table":
+		act = []adapt.Op{{Kind: adapt.OpClearTable, Table: other.Name}}
+	case "rejected-updatetable":
+		act = []adapt.Op{{Kind: adapt.OpUpdateTable, Table: spec.Name, Chg: []adapt.IndexChange{{Delete: "gsi1"}, {Delete: "gsi2"}, {Delete: "nosuchindex"}}}}
+	}
+	refill := fill(spec.Name, n/2, n/2+20)
+	stages := [][]adapt.Op{hist, act, refill}
+	done := []adapt.Op{}
+	for si, ops := range stages {
+		f := mon.RunHistory(cl, m, ops, keys, false, nil, ctx.Trace, st)
+		if f == nil {
+			obs := mon.Observe(cl, m, keys, []string{spec.Name, other.Name})
+			if len(obs) == 0 {
+				obs = c03Queries(cl, m, st)
+			}
+			if len(obs) > 0 {
+				f = &mon.Failure{Step: len(ops) - 1, Phase: "observe", Diffs: obs, Op: ops[len(ops)-1]}
+			}
+		}
+		if f != nil {
+			f.Prefix = append(append([]adapt.Op{}, done...), ops[:f.Step+1]...)
+			if len(f.Prefix) > 12 {
+				f.Prefix = f.Prefix[len(f.Prefix)-12:] // the bulk fill is described by the witness setup, not listed
+			}
+			x.failureViolation(adapter, f, map[string]interface{}{"bulk_items": n, "action": action, "stage": []string{"fill", "action", "refill"}[si]})
+			break
+		}
+		done = append(done, ops...)
+	}
+	x.r.Evals += st.Calls + 3*(2*n+10)
+	x.r.Counters["bulk_histories"]++
+	x.fp(true, "bulk|%s|%d|%s", adapter, n, action)
+	x.set("bulk_sizes", fmt.Sprint(n))
 }
 
 func c18Decode(seq int) []int {
@@ -152,6 +244,13 @@ func (p *c18) RunCase(ctx *runner.Ctx) runner.CaseResult {
 		return x.r
 	}
 	idx := ctx.Case - blocks*2
+	if idx >= c18Seeded(ctx.Tier) {
+		b := idx - c18Seeded(ctx.Tier)
+		adapter := adapt.Adapters[b%2]
+		b /= 2
+		p.bulk(x, adapter, c18BulkSizes[b%len(c18BulkSizes)], c18BulkActions[b/len(c18BulkSizes)], ctx)
+		return x.r
+	}
 	r := mon.Rng(ctx.Seed, "C18", idx)
 	adapter := adapt.Adapters[idx%2]
 	cls := []adapt.Client{adapt.New(adapter), adapt.New(adapter)}
